@@ -643,10 +643,12 @@ func execSched(t []string) string {
 			}
 			var qs []string
 			srcSet := map[string]bool{}
-			for i, b := range bq {
+			for _, b := range bq {
 				for _, q := range b.Queries {
-					enc, srcs := encQuery(q.String())
-					if i == 0 {
+					text := q.String()
+					enc, srcs := encQuery(text)
+					// node 0 queries measurement m0
+					if strings.Contains(text, `.m0`) {
 						qs = append(qs, enc)
 					}
 					for _, s := range srcs {
